@@ -83,6 +83,18 @@ def record_and_validate(ev, bins, executions, steps, work):
         for rec in vf.read_ndjson(cf):
             unknown.append({"part": "traces", **rec})
     files = sorted(glob.glob(os.path.join(work, "zz_*.ndjson")))
+    for f in files:   # a recorder that died (reported above as a crash) leaves a truncated last line: keep whole events
+        lines = open(f).read().split("\n")
+        good = []
+        for x in lines:
+            try:
+                json.loads(x)
+                good.append(x)
+            except ValueError:
+                break
+        if len(good) != len([x for x in lines if x]):
+            open(f, "w").write("".join(x + "\n" for x in good))
+    files = [f for f in files if os.path.getsize(f) > 0]
     env = {"JAVA_TOOL_OPTIONS": "-Xss64m"}
     res = vf.validate_traces("Trace_Zigzag", "Trace_Zigzag.cfg", files, par=TLC_PAR, extra_env=env)
     nev, ops = 0, {}
@@ -148,6 +160,11 @@ def main(tier):
                              "mode": "simulate num=%d depth=%d" % (sim, depth) if sim else "bfs (complete)"})
         if sim:
             exhaustive = exhaustive and True   # the BFS parts are complete; the simulation part is sampling on top
+        byop = {}
+        for o in g.out:
+            for a, _ in o:
+                byop[a["op"]] = byop.get(a["op"], 0) + 1
+        ev.parts[part]["edges_by_op"] = byop
         work = os.path.join(vf.BUILD, "work", "%s_%s_%d" % (PROP, part, os.getpid()))
         shutil.rmtree(work, ignore_errors=True)
         summ, devs, crashes, nb = vf.replay(g, bins, work, shards=2, timeout=1100)
@@ -182,7 +199,12 @@ def main(tier):
         vf.log("[c07] %s replayed at %.1fs" % (part, time.time() - t0))
     ex_n, steps = TRACES[tier]
     twork = os.path.join(vf.BUILD, "work", "%s_traces_%d" % (PROP, os.getpid()))
-    rej, nev = record_and_validate(ev, bins, ex_n, steps, twork)
+    try:
+        rej, nev = record_and_validate(ev, bins, ex_n, steps, twork)
+    except vf.Infra:
+        if not unknown:
+            raise
+        rej, nev = [], 0     # deviations already found by the replay are reported, not hidden by the failure
     unknown += rej
     vf.log("[c07] traces validated at %.1fs" % (time.time() - t0))
     ev.cov["evaluations"] = total_beh + nev
